@@ -57,6 +57,9 @@ type mapOp struct {
 
 func vfMapOp(tag string, sp *mapSpec) *mapOp {
 	op := &mapOp{kind: vf.Choice(tag+".kind", 2), key: vfKeys[vf.Choice(tag+".key", len(vfKeys))], val: tag + ".val", ts: vfOpTS(tag + ".ts")}
+	if op.kind == 0 && vf.Choice(tag+".same-value", 2) == 1 {
+		op.val = "v0" // a put may carry a value equal to the one a key (or the other operation) already holds
+	}
 	for _, e := range sp.ents {
 		vf.Assume(!sameOp(op.ts, e.T))
 	}
